@@ -240,6 +240,17 @@ WITNESS = [
 ]
 
 
+# DESIGN 7.3' (C18 owns fixes/C18-arena-soft-reset.patch): after a soft reset Arena::_alloc_oneshot skips a retained block that is
+# too small, frees it, but leaves the previous block's `next` pointing at it; the next hard reset / destructor walks into freed
+# memory. Reached through the Builder arena (blocks of 128K, 256K, 512K): embed 100000, 100000, 200000 bytes; reinit (soft reset of
+# the builder arena); embed 300000 bytes -> the 256K block is skipped and freed. Undefined behaviour in the plain builds, so these
+# lifecycles run under ASan only.
+WITNESS_ASAN_ONLY = [
+    "C w-arena-soft-x x b 0 G:e100000,e100000,e200000 RI P:e300000,Z",
+    "C w-arena-soft-a a c 0 G:e100000,e100000,e200000 RS P:l,e300000,Z",
+]
+
+
 # ------------------------------------------------------------------ running
 def run_cases(exe, cases, shards=16, timeout=1500, env=None):
     chunks = [cases[i::shards] for i in range(shards)]
@@ -310,12 +321,14 @@ def asan_key(text):
     frames = re.findall(r"#\d+ 0x[0-9a-f]+ in (asmjit::[^\s(]+)", text)
     frames = [re.sub(r"asmjit::(v\d+_\d+|_abi_\w+)::", "", f) for f in frames]
     top = frames[0] if frames else "?"
-    if "Arena" in " ".join(frames[:6]) and kind in ("heap-use-after-free", "attempting-double-free", "double-free"):
+    freed = text.split("freed by thread", 1)[1].split("previously allocated", 1)[0] if "freed by thread" in text else ""
+    if kind == "heap-use-after-free" and "Arena::_alloc_oneshot" in freed and top.startswith("Arena::"):
+        # the block was released by the skip loop of _alloc_oneshot and is reached again through the block list
         return "C16/asan/arena-block-list-after-soft-reset", kind, frames[:6]
     return "C16/asan/%s/%s" % (kind, top), kind, frames[:6]
 
 
-INITIAL_STATE = "1/1/1/1/0/0/0/0/0/0"
+INITIAL_STATE = "1/1/1/1/0/0/0/0/0/0/0"
 
 
 def model_script(case, trace):
@@ -333,7 +346,7 @@ def model_script(case, trace):
             d = [int(cur[i]) - int(prev[i]) for i in (3, 4, 5, 8, 9)]
             if min(d) < 0:
                 return None          # a program cannot remove sections / labels / relocations / registers / annotations
-            out.append("G%d.%d.%d.%d.%d" % tuple(d))
+            out.append("G%d.%d.%d.%d.%d.%s" % (tuple(d) + (cur[10],)))
         elif st == "NHa":
             out.append("NH")
         elif st[0] in "HBE" and st not in ("EL1", "EL0"):
@@ -390,9 +403,19 @@ def run(ck):
     ck.log("theorems: %d, failed: %d" % (len(obl), len([o for o in obl if not o["ok"]])))
 
     # ---------------------------------------------------------------- S3/S4: harness
-    exe_plain = ck.build_harness("c16", ["c16_harness.cpp"], variant="plain")
-    exe_dirty = ck.build_harness("c16d", ["c16_harness.cpp"], variant="plain", extra=["-DC16_DIRTY_MALLOC"])
-    exe_asan = ck.build_harness("c16", ["c16_harness.cpp"], variant="asan")
+    # member table for the representation probe, generated from the same member lists as ResetFields.v
+    import hashlib
+    inc_dir = os.path.join(ck.work, "inc")
+    os.makedirs(inc_dir, exist_ok=True)
+    inc_text = c16_fields.members_inc(classes)
+    inc_path = os.path.join(inc_dir, "c16_members.inc")
+    if not os.path.exists(inc_path) or open(inc_path).read() != inc_text:
+        open(inc_path, "w").write(inc_text)
+    mflags = ["-DC16_HAVE_MEMBERS", "-I" + inc_dir, "-DC16_MEMBERS_HASH=0x" + hashlib.sha256(inc_text.encode()).hexdigest()[:8]]
+    n_probe_members = inc_text.count("C16_MEMBER(") - inc_text.count("K_SKIP")
+    exe_plain = ck.build_harness("c16", ["c16_harness.cpp"], variant="plain", extra=mflags)
+    exe_dirty = ck.build_harness("c16d", ["c16_harness.cpp"], variant="plain", extra=mflags + ["-DC16_DIRTY_MALLOC"])
+    exe_asan = ck.build_harness("c16", ["c16_harness.cpp"], variant="asan", extra=mflags)
     model = ck.ocaml_model("Extract_Lifecycle.v", ["c16_driver.ml"], name="c16")
     asan_env = dict(os.environ, ASAN_OPTIONS="detect_leaks=0:abort_on_error=0:allocator_may_return_null=1", UBSAN_OPTIONS="print_stacktrace=1")
 
@@ -429,21 +452,25 @@ def run(ck):
         cases.append(gen_case(rng, "g%d" % i, ck.tier, a, k, ja_ok))
     by_id = {c.split(" ", 2)[1]: c for c in cases}
     n_asan = min(len(cases), 700 if ck.tier == "quick" else 8000)
+    asan_cases = list(WITNESS_ASAN_ONLY) + cases[:n_asan]
+    for c in WITNESS_ASAN_ONLY:
+        by_id[c.split(" ", 2)[1]] = c
     ck.log("cases: %d (asan on %d)" % (len(cases), n_asan))
 
     res_plain, err_plain, bad_plain = run_cases(exe_plain, cases)
     res_dirty, err_dirty, bad_dirty = run_cases(exe_dirty, cases)
-    res_asan, err_asan, bad_asan = run_cases(exe_asan, cases[:n_asan], env=asan_env, timeout=2400)
+    res_asan, err_asan, bad_asan = run_cases(exe_asan, asan_cases, env=asan_env, timeout=2400)
     if bad_plain or bad_asan or bad_dirty:
         ck.violation("C16/harness-crash", "harness process failed: %s" % (bad_plain or bad_asan or bad_dirty)[:2], {"detail": str((bad_plain or bad_asan or bad_dirty)[:2]),
                      "broken": "harness"}, no_input=True)
 
-    stats = {"identical": 0, "crashed": 0, "name_monitor_hits": 0, "ja_diffs": 0, "other_diffs": 0, "asan_reports": 0}
+    stats = {"identical": 0, "crashed": 0, "name_monitor_hits": 0, "ja_diffs": 0, "other_diffs": 0, "asan_reports": 0,
+             "probe_runs": 0, "probe_member_comparisons": 0, "probe_diffs": 0}
     dist = {"by_kind": {}, "steps": {}, "static_arena": 0, "with_error_op": 0, "final_reset": {}}
     nontrivial = set()
     witness_hits = set()
     for variant, res, errs, clist in (("plain", res_plain, err_plain, cases), ("dirty-malloc", res_dirty, err_dirty, cases),
-                                      ("asan", res_asan, err_asan, cases[:n_asan])):
+                                      ("asan", res_asan, err_asan, asan_cases)):
         for c in clist:
             cid = c.split(" ", 2)[1]
             r = res.get(cid, {})
@@ -464,6 +491,19 @@ def run(ck):
                              {"case": c, "variant": variant, "report": rep[-3000:], "status": r.get("X")})
                 continue
             rec, fresh = r["R"], r["F"]
+            if "M" in r:
+                pm = r["M"].split(" ")
+                stats["probe_runs"] += 1
+                stats["probe_member_comparisons"] += int(pm[0])
+                if len(pm) > 1 and pm[1] != "-":
+                    stats["probe_diffs"] += 1
+                    for mem in pm[1].split(",")[:4]:
+                        ck.violation("C16/residue/member/" + mem,
+                                     "%s build: after the final reset-like step of the lifecycle the data member %s of the recycled object does "
+                                     "not have the representation it has in a fresh object of the same configuration (bytes / null-ness / element "
+                                     "count)" % (variant, mem), {"case": c, "variant": variant, "probe": r["M"]})
+            elif variant == "plain":
+                ck.violation("C16/probe-missing", "harness printed no representation probe line for %s" % cid, {"case": c, "broken": "harness probe"}, no_input=True)
             if "namesok=0" in rec or "namesok=0" in fresh:
                 stats["name_monitor_hits"] += 1
                 witness_hits.add("Section/_name")
@@ -532,7 +572,7 @@ def run(ck):
                 if g != w_:
                     break
             gl, wl = g.split("/"), w_.split("/")
-            if gl[:9] == wl[:9]:
+            if gl[:9] == wl[:9] and gl[10:] == wl[10:]:
                 corr["ja_only"] += 1
                 witness_hits.add("BaseCompiler/_jump_annotations")
                 ck.violation("C16/residue/jump-annotations-survive-reset",
@@ -541,7 +581,7 @@ def run(ck):
             elif steps[i] in RESETISH:
                 ck.violation("C16/residue/state-after-%s" % steps[i],
                              "after step %d (%s) the state is %s; the proven lifecycle model says a reset-like step re-creates the initial "
-                             "state %s (init/attached/emitters/sections/labels/relocations/holder-logger/emitter-logger/vregs/annotations)"
+                             "state %s (init/attached/emitters/sections/labels/relocations/holder-logger/emitter-logger/vregs/annotations/pending)"
                              % (i, steps[i], g, w_), {"case": c, "step": i, "impl": g, "model": w_})
             else:
                 ck.violation("C16/lifecycle-model/%s" % re.sub(r"[^A-Za-z0-9]", "", steps[i][:3]),
@@ -589,7 +629,11 @@ def run(ck):
             samples.append({"case": by_id[cid][:400], "recycled": res_plain[cid]["R"][:300], "fresh": res_plain[cid].get("F", "")[:300]})
     return ck.finish(
         "proof",
-        {"evaluations": 2 * len(cases) + n_asan, "distinct_nontrivial": len(nontrivial),
+        {"obligations": len(obl), "discharged": len([o for o in obl if o["ok"]]),
+         "theorems": [{"name": o["name"], "ok": o["ok"],
+                       "assumptions": ("closed under the global context" if o["assumptions"] == [] else o["assumptions"])} for o in obl],
+         "theorems_checked_against": ("regenerated coq/gen (slow path)" if regen is not None else "committed coq/gen snapshot (identical to the regenerated text)"),
+         "evaluations": 2 * len(cases) + n_asan, "distinct_nontrivial": len(nontrivial),
          "rule": "lifecycles generated from VERIF_SEED (history of <= %d steps over G/RS/RH/RI/DA/NE/NH/NHa/L/EL/V/H, then a reset-like step, "
                  "neutral steps and the final program), evenly over {x86-64,a64} x {Assembler,Builder,Compiler}; every case runs in the plain "
                  "build and in the dirty-malloc build (interposed allocator: 0xA5 prefill, random padding, 0xDD on free), the first %d also "
@@ -598,6 +642,13 @@ def run(ck):
          "samples": samples, "differential": stats, "input_distribution": dist,
          "translator": {"classes": len([c for c in classes if c in c16_fields.CLASSES]), "members": nfields, "functions": len(funcs),
                         "regenerated": regen is not None, "uncovered_members": ["%s:%s::%s" % u for u in uncovered]},
+         "representation_probe": {"members_in_table": n_probe_members, "skipped_kinds": inc_text.count("K_SKIP"),
+                                  "rule": "after the final reset-like (+ neutral) steps, before the final program: every non-skipped data member of "
+                                          "CodeHolder / BaseEmitter / BaseAssembler|BaseBuilder / BaseCompiler of the recycled objects vs. fresh objects "
+                                          "in the same configuration"},
+         "unsupported": ["operands array of InstNodeWithOperands<N> (template, reset by InstNode::_reset_ops)", "VirtReg / JumpAnnotation / RAWorkReg / RABlock "
+                         "objects (allocated per use in arenas that are reset as a whole)", "Pass objects other than BaseRAPass",
+                         "FuncRetNode / CommentNode / SentinelNode (no own data members)", "early returns are not guards (Arena::reset on the zero block)"],
          "lifecycle_model_correspondence": corr, "traces_validated_against_impl": corr["scripts"]},
         assumptions=["theorems are about the extracted member/write/call-graph data and the Gallina lifecycle model, not about the C++ text",
                      "tools/c16_fields.py sees every MemberExpr write / member call / call edge of the dumped translation units (clang 14 AST)",
